@@ -278,7 +278,28 @@ func ruleTotalCmd(args []string) int {
 		buildCase("build:nfilters", &rule.SyscallRule{Type: rule.AppendSyscallRuleType, List: "exit", Action: "always", Filters: fsx, Keys: []string{"k"}},
 			fmt.Sprintf("%d filters", n))
 	}
-	junk := []string{"", " ", "=", "pid", "uid", "nosuch", "exit", "\x00", strings.Repeat("a", 5000), "-1", "unset", "0x", "💥"}
+	// names that reach the tables' parsers: record types (msgtype), users and groups, errnos (exit), file types
+	for _, v := range []string{"][", "]x[", "UNKNOWN]1329[", "a]b[1]", "[", "]", "UNKNOWN[", "UNKNOWN[]", "UNKNOWN[-1]", "UNKNOWN[99999999999999999999]", "unknown[12]", "", " "} {
+		for _, list := range []string{"user", "exclude", "exit"} {
+			buildCase("build:names", &rule.SyscallRule{Type: rule.AppendSyscallRuleType, List: list, Action: "always",
+				Filters: []rule.FilterSpec{{Type: rule.ValueFilterType, LHS: "msgtype", Comparator: "=", RHS: v}}}, "msgtype "+v)
+		}
+	}
+	for _, f := range []string{"uid", "euid", "auid", "obj_uid", "gid", "egid", "sgid", "fsgid", "obj_gid"} {
+		for _, v := range []string{"no_such_name_zz", "", " ", "root ", "-", "--1", "0x10", "1e3", "unset ", "💥"} {
+			buildCase("build:names", &rule.SyscallRule{Type: rule.AppendSyscallRuleType, List: "exit", Action: "always",
+				Filters: []rule.FilterSpec{{Type: rule.ValueFilterType, LHS: f, Comparator: "=", RHS: v}}}, f+" "+v)
+		}
+	}
+	for _, v := range []string{"-ENOSUCH", "ENOSUCH", "-", "--EPERM", "-EPERM ", "EPERM-", "-0x", "- 1"} {
+		buildCase("build:names", &rule.SyscallRule{Type: rule.AppendSyscallRuleType, List: "exit", Action: "always",
+			Filters: []rule.FilterSpec{{Type: rule.ValueFilterType, LHS: "exit", Comparator: "=", RHS: v}}}, "exit "+v)
+	}
+	for _, v := range []string{"nosuchtype", "", "FILE", "file ", "0x", "-1"} {
+		buildCase("build:names", &rule.SyscallRule{Type: rule.AppendSyscallRuleType, List: "exit", Action: "always",
+			Filters: []rule.FilterSpec{{Type: rule.ValueFilterType, LHS: "filetype", Comparator: "=", RHS: v}}}, "filetype "+v)
+	}
+	junk := []string{"", " ", "=", "pid", "uid", "nosuch", "exit", "\x00", strings.Repeat("a", 5000), "-1", "unset", "0x", "💥", "][", "no_such_name_zz"}
 	for i := 0; i < *random; i++ {
 		pick := func() string { return junk[rng.Intn(len(junk))] }
 		var r rule.Rule
@@ -393,7 +414,10 @@ func flagValue(r *rand.Rand, letter string, env *ruleEnv) (string, string) {
 	case "a", "A":
 		l := []string{"exit", "task", "user", "exclude"}[r.Intn(4)]
 		a := []string{"always", "never"}[r.Intn(2)]
-		if r.Intn(2) == 0 {
+		switch r.Intn(8) {
+		case 0: // half a value: a first -a/-A is refused for it, and a second one must be refused all the same
+			return []string{l, a}[r.Intn(2)], "half-add"
+		case 1, 2, 3:
 			return l + "," + a, "plain"
 		}
 		return a + "," + l, "plain"
@@ -483,7 +507,7 @@ func ruleFlagsCmd(args []string) int {
 				case "D":
 					argv = append(argv, "-D")
 				case "X":
-					argv = append(argv, []string{"stray", "open", "uid=0", "/tmp"}[rng.Intn(4)])
+					argv = append(argv, []string{"stray", "open", "uid=0", "/tmp", "", " "}[rng.Intn(6)]) // an empty word is a word
 					cls = "positional"
 				default:
 					v, vc := flagValue(rng, letter, env)
